@@ -40,6 +40,7 @@ TRUSTED_BASE = [
     "hand-written Gallina model of the Go code (coq/model), tied to /repo by the correspondence run of this check and by the translators regenerating coq/gen/*.v from the Go source (harness/xlate)",
     "correspondence harness (Go, harness/*): generators, projection of observables, canonical rendering (lib/show.go ~ model/Show.v)",
     "Go toolchain and standard library used to run the implementation",
+    "staticcheck (value-flow checks SA4006, SA4009-SA4017, SA9003, SA5011) as part of the translator layer: gen/Lint.v lists its findings on in_toto and cmd; when the binary is missing gen/Lint.v says lint_ran = false and the obligation lint_findings = [] holds vacuously",
 ]
 
 
